@@ -199,6 +199,7 @@ func runHistory(base string, h History) runResult {
 	}
 	pendingFault := "" // first fault of a failed update not yet followed by a successful one
 	restarted := false
+	fresh := true
 	for i, st := range h.Steps {
 		st.State.Normalize(false)
 		if st.Restart {
@@ -210,6 +211,18 @@ func runHistory(base string, h History) runResult {
 			env := e
 			master.OnReload = func() { running = env.ReadDisk().Canon() }
 			restarted = true
+			fresh = true
+		}
+		if fresh {
+			// until a new instance has written its first configuration it also removes the shard
+			// files it does not know: faults on shard files are not armed meanwhile
+			var fl []string
+			for _, f := range st.Faults {
+				if !strings.HasPrefix(f, "shard:") {
+					fl = append(fl, f)
+				}
+			}
+			st.Faults = fl
 		}
 		h.Steps[i] = st
 		ops := e.Sync(st.Step)
@@ -243,6 +256,12 @@ func runHistory(base string, h History) runResult {
 		o := stepObs{Ops: ops, Written: e.Written()}
 		if err != nil {
 			o.Err = err.Error()
+		} else {
+			for _, w := range o.Written {
+				if w == "cfg/haproxy.cfg" {
+					fresh = false
+				}
+			}
 		}
 		if e.Queue != nil && e.Queue.Adds > q {
 			o.ReloadAsked = true
@@ -362,9 +381,9 @@ func main() {
 		inputs = append(inputs, h)
 	} else {
 		inputs = append(inputs, corpus()...)
-		n := o.Count(200, 20000)
+		n := o.Count(110, 3000)
 		if o.Search {
-			n = o.Count(1200, 20000)
+			n = o.Count(1200, 3000)
 		}
 		for i := 0; i < n; i++ {
 			inputs = append(inputs, gen(rng, o.Search))
